@@ -109,7 +109,7 @@ impl<'g, 'a, 'b> Deriver<'g, 'a, 'b> {
             WsMode::Light => {
                 if skipping && self.src.chance(50) {
                     self.out.push(*self.src.choose(WS_CHARS));
-                } else if !skipping && self.src.chance(6) {
+                } else if !skipping && self.src.chance(16) {
                     self.out.push(' ');
                 }
             }
